@@ -161,6 +161,27 @@ func (c *chain) describe(bs []*blk) []tr.M {
 	return out
 }
 
+// prefill gives the chain k finalized blocks without watched events below the scripted ones (a syncer that starts far behind
+// the tip, or a chain with long quiet stretches: the ranges the downloader asks for become wide)
+func (c *chain) prefill(k int) {
+	c.mu.Lock()
+	defer c.mu.Unlock()
+	var nb []*blk
+	for i := 0; i < k; i++ {
+		b := c.build(c.tip()+1, 0, c.blocks[c.tip()], 0)
+		c.blocks = append(c.blocks, b)
+		nb = append(nb, b)
+	}
+	c.fin = c.tip()
+	// one compact line: blocks 1..tip of version 0, none of them with a watched log
+	for _, b := range nb {
+		if len(b.watched) != 0 {
+			panic("prefill block with watched logs")
+		}
+	}
+	c.emit(tr.M{"ev": "chain", "op": "prefill", "tip": c.tip(), "fin": c.fin, "blocks": []tr.M{}})
+}
+
 func (c *chain) mine(content int) {
 	c.mu.Lock()
 	defer c.mu.Unlock()
